@@ -193,4 +193,41 @@ Proof.
   rewrite map_map. f_equal. f_equal. apply map_ext. intros x. apply mark_mark2.
 Qed.
 
+(* a rule registered by before / after / push is reported by get_all_rules and
+   get_active_rules straight away; a failed registration reports nothing new *)
+Theorem registered_is_reported (r : ruler) (o : op F) name :
+  match o with
+  | OpBefore _ n _ _ | OpAfter _ n _ _ | OpPush n _ _ => n = name
+  | _ => False
+  end ->
+  let '(r', out) := step r o in
+  match out with
+  | Ok _ => In name (all_names r') /\ In name (active_names r')
+  | _ => r' = r
+  end.
+Proof.
+  assert (A : forall a (x : rule) b, renabled x = true ->
+            In (rname x) (map rname (a ++ x :: b)) /\
+            In (rname x) (map rname (filter renabled (a ++ x :: b)))).
+  { intros a x b Hx. split.
+    - rewrite map_app. apply in_or_app. right. left. reflexivity.
+    - rewrite filter_app, map_app. apply in_or_app. right. cbn [filter]. rewrite Hx.
+      left. reflexivity. }
+  destruct o as [n fn alt|ref n fn alt|ref n fn alt|n fn alt| | | | | |]; intros Hn; try contradiction; subst n.
+  - destruct (find (rules r) ref) as [i|] eqn:E.
+    + destruct (before_order r ref name fn alt i E) as [a [x [b [_ [_ [_ Hs]]]]]].
+      rewrite Hs. unfold all_names, active_names, active. cbn [rules].
+      exact (A a (mkRule name true fn alt) (x :: b) eq_refl).
+    + unfold step. rewrite E. reflexivity.
+  - destruct (find (rules r) ref) as [i|] eqn:E.
+    + destruct (after_order r ref name fn alt i E) as [a [x [b [_ [_ [_ Hs]]]]]].
+      rewrite Hs. unfold all_names, active_names, active. cbn [rules].
+      replace (a ++ x :: mkRule name true fn alt :: b)
+        with ((a ++ [x]) ++ mkRule name true fn alt :: b) by (rewrite <- app_assoc; reflexivity).
+      exact (A (a ++ [x]) (mkRule name true fn alt) b eq_refl).
+    + unfold step. rewrite E. reflexivity.
+  - cbn [step]. unfold all_names, active_names, active. cbn [rules].
+    exact (A (rules r) (mkRule name true fn alt) [] eq_refl).
+Qed.
+
 End Order.
